@@ -17,6 +17,7 @@
 Require Import Gengo.Base.Bytes.
 
 Definition nl : ascii := ascii_of_N 10.
+Arguments nl : simpl never.
 Definition b_ (n : N) : ascii := ascii_of_N n.
 
 (* regexp/syntax.IsWordChar: [0-9A-Za-z_]; every byte >= 0x80 is not a word character *)
